@@ -307,7 +307,10 @@ func disjoint(ivs []iv) bool {
 
 // historyCase applies the operations to a real transcript and to a plain model.
 func historyCase(c *enum.Ctx, k kase) (key string, transitions int) {
-	t := &gene.CodingTranscript{ID: "t"}
+	var t gene.Transcript = &gene.NonCodingTranscript{ID: "t"}
+	if k.Coding {
+		t = &gene.CodingTranscript{ID: "t"}
+	}
 	other := &gene.NonCodingTranscript{ID: "other"}
 	var model []iv
 	for step, oi := range k.Ops {
@@ -378,6 +381,24 @@ func historyCase(c *enum.Ctx, k kase) (key string, transitions int) {
 			}
 		}
 		_ = before
+		// the derived views follow the current exon set, whatever was asked of the transcript before
+		if len(model) > 0 {
+			in := t.Introns()
+			if len(in) != len(model)-1 {
+				c.Fail("history/introns", k, "%s: %d introns for exons %v", name, len(in), model)
+				return "", transitions
+			}
+			for i, x := range in {
+				if x.Start() != model[i].E || x.End() != model[i+1].S || x.Location() != feat.Feature(t) {
+					c.Fail("history/introns", k, "%s: intron %d is [%d,%d), exons are %v", name, i, x.Start(), x.End(), model)
+					return "", transitions
+				}
+			}
+			if t.Len() != model[len(model)-1].E || t.End()-t.Start() != t.Len() {
+				c.Fail("history/extent", k, "%s: Len=%d Start=%d End=%d, exons are %v", name, t.Len(), t.Start(), t.End(), model)
+				return "", transitions
+			}
+		}
 	}
 	return fmt.Sprint(model), transitions
 }
@@ -398,7 +419,7 @@ func check(c *enum.Ctx, k kase) bool {
 }
 
 func run(c *enum.Ctx) {
-	c.Rule("layouts: every set of <=3 intervals inside [0,L] (L=5 quick, 6 thorough; accepted and rejected sets alike) in 3 input orders x CDS bounds x orientation at transcript/gene/chromosome level x offsets {0,3} x coding/non-coding; chains of depth 1,2,3,999,1000; conversions on -6..6 and the int extremes; histories: BFS over sequences of <=3 (thorough 4) operations from 13 accepted/rejected SetExons/Add operations with spare capacity 0 and 2, de-duplicated on the model exon set, compared with a plain model after every operation; non-trivial = accepted layouts and all histories")
+	c.Rule("layouts: every set of <=3 intervals inside [0,L] (L=5 quick, 6 thorough; accepted and rejected sets alike) in 3 input orders x CDS bounds x orientation at transcript/gene/chromosome level x offsets {0,3} x coding/non-coding; chains of depth 1,2,3,999,1000; conversions on -6..6 and the int extremes; histories: BFS over sequences of <=3 (thorough 4) operations from 13 accepted/rejected SetExons/Add operations with spare capacity 0 and 2, on a coding and a non-coding transcript, de-duplicated on the model exon set, compared with a plain model (exon set, introns, extent) after every operation; non-trivial = accepted layouts and all histories")
 	L := 5
 	depth := 3
 	if !c.Quick {
@@ -472,7 +493,8 @@ func run(c *enum.Ctx) {
 	do(kase{Kind: "conv", Pos: -int(^uint(0)>>1) - 1})
 	// histories
 	var states, trans, traces int64
-	for _, spare := range []int{0, 2} {
+	for _, cfg := range []int{0, 2, 4, 6} {
+		spare, coding := cfg%4, cfg < 4
 		seen := map[string]bool{"[]": true}
 		frontier := [][]int{{}}
 		states++
@@ -481,7 +503,7 @@ func run(c *enum.Ctx) {
 			for _, h := range frontier {
 				for oi := range opDefs {
 					nh := append(append([]int{}, h...), oi)
-					k := kase{Kind: "history", Ops: nh, Spare: spare}
+					k := kase{Kind: "history", Ops: nh, Spare: spare, Coding: coding}
 					c.Eval()
 					c.Nontrivial(enum.J(k))
 					key, t := historyCase(c, k)
